@@ -21,7 +21,7 @@ pub const METHODS: &[&str] = &[
     "add", "subtract", "multiply", "divide", "max", "min", "sum", "cumulative", "cumulative_binary",
     "cumulative_transformed_binary", "change", "all_time_high", "all_time_low", "all_time_high_from",
     "sum_of_others", "min_of_others", "max_of_others", "transform", "transform2", "transform3", "lookback",
-    "rolling_sum", "rolling_max_from_starts", "rolling_min_from_starts", "to",
+    "rolling_sum", "rolling_max_from_starts", "rolling_min_from_starts", "to", "count_from_indexes",
 ];
 
 /// Methods left out, with the reason (written to the evidence file).
@@ -29,7 +29,7 @@ pub const SKIPPED: &[(&str, &str)] = &[
     ("compute_previous_value / ratio_change / percentage_change / cagr / rolling_*_change / rolling_from_window_starts", "go through f32/f64: not exact arithmetic on u64"),
     ("compute_rolling_average / sd / expanding_sd / ema / rma / sma / rolling_median / rolling_ratio / zscore / weighted_average_of_others / percentage*", "rebuild a running float state: inexact by construction"),
     ("compute_cumulative_count* / rolling_count / from_index", "need V::T: From<usize>, which u64 does not implement; would need a usize-valued destination"),
-    ("compute_*_from_indexes / indirect_sequential / first_per_index / binary / transform4", "two-level index spaces; not built in this revision"),
+    ("compute_sum/min/max/average/filtered_count_from_indexes / indirect_sequential / first_per_index / binary / transform4", "two-level index spaces; only compute_count_from_indexes is driven (usize-valued destination, group starts partition an append-only item sequence)"),
 ];
 
 struct Sources<S> {
@@ -41,6 +41,12 @@ struct Sources<S> {
     mb: Vec<u64>,
     mmono: Vec<u64>,
     mws: Vec<usize>,
+    /// index groups: `gs[i]` = first item of group i in `items` (groups partition an append-only
+    /// item sequence: a new group starts where the items ended); model = starts + item count
+    gs: BytesVec<usize, usize>,
+    items: BytesVec<usize, u64>,
+    mgs: Vec<usize>,
+    mitems: usize,
 }
 
 fn push_all<S: StoredVec<I = usize, T = u64>>(s: &mut Sources<S>, which: usize, n: usize, tag: u64) -> vecdb::Result<()> {
@@ -65,12 +71,21 @@ fn push_all<S: StoredVec<I = usize, T = u64>>(s: &mut Sources<S>, which: usize, 
             let w = (prev + (mix(tag ^ 0xd, k) % 3) as usize).min(i);
             s.ws.push(w);
             s.mws.push(w);
+            // one more group of 0..3 items
+            s.gs.push(s.mitems);
+            s.mgs.push(s.mitems);
+            for j in 0..mix(tag ^ 0xe, k) % 4 {
+                s.items.push(mix(tag ^ 0xf, k * 4 + j));
+                s.mitems += 1;
+            }
         }
     }
     s.a.write()?;
     s.b.write()?;
     s.mono.write()?;
     s.ws.write()?;
+    s.gs.write()?;
+    s.items.write()?;
     Ok(())
 }
 
@@ -83,10 +98,20 @@ fn truncate_all<S: StoredVec<I = usize, T = u64>>(s: &mut Sources<S>, to: usize)
     s.mb.truncate(to);
     s.mmono.truncate(to);
     s.mws.truncate(to);
+    if to < s.mgs.len() {
+        // the items of the removed groups go with them
+        let items_to = s.mgs[to];
+        s.gs.truncate_if_needed_at(to)?;
+        s.items.truncate_if_needed_at(items_to)?;
+        s.mgs.truncate(to);
+        s.mitems = items_to;
+    }
     s.a.write()?;
     s.b.write()?;
     s.mono.write()?;
     s.ws.write()?;
+    s.gs.write()?;
+    s.items.write()?;
     Ok(())
 }
 
@@ -169,10 +194,17 @@ where
             mb: Vec::new(),
             mmono: Vec::new(),
             mws: Vec::new(),
+            gs: BytesVec::import(db, "gs", Version::ONE)?,
+            items: BytesVec::import(db, "items", Version::ONE)?,
+            mgs: Vec::new(),
+            mitems: 0,
         })
     };
     let mut s = imp(&db).map_err(|e| Fail::Harness(format!("import sources: {e}")))?;
     let mut dest: EagerVec<V> = EagerVec::import(&db, "dest", Version::ONE).map_err(|e| Fail::Harness(format!("import dest: {e}")))?;
+    // usize-valued destination of the two-level method compute_count_from_indexes
+    let by_count = method == "count_from_indexes";
+    let mut cnt: EagerVec<BytesVec<usize, usize>> = EagerVec::import(&db, "cnt", Version::ONE).map_err(|e| Fail::Harness(format!("import cnt: {e}")))?;
     let mut first_changed = usize::MAX;
     let mut nref = 0usize;
     let viol = |clause: &str, detail: String| Fail::Violation(Violation::new("C06", format!("{clause}/{method}"), format!("[{method} window={window} batch={knob}B] {detail}")));
@@ -192,16 +224,20 @@ where
             }
             "dest_write" => {
                 dest.write().map_err(|e| viol("result", format!("dest write: {e}")))?;
+                cnt.write().map_err(|e| viol("result", format!("dest write: {e}")))?;
             }
             "dest_reimport" => {
                 dest.flush().map_err(|e| viol("result", format!("dest flush: {e}")))?;
+                cnt.flush().map_err(|e| viol("result", format!("dest flush: {e}")))?;
                 db.flush().map_err(|e| Fail::Harness(format!("db flush: {e}")))?;
                 drop(dest);
+                drop(cnt);
                 if op["reopen_db"].as_bool().unwrap_or(false) {
                     // sources must go too
-                    s.a.flush().and(s.b.flush()).and(s.mono.flush()).and(s.ws.flush()).map_err(|e| Fail::Harness(format!("flush sources: {e}")))?;
+                    s.a.flush().and(s.b.flush()).and(s.mono.flush()).and(s.ws.flush()).and(s.gs.flush()).and(s.items.flush()).map_err(|e| Fail::Harness(format!("flush sources: {e}")))?;
                     db.flush().map_err(|e| Fail::Harness(format!("db flush: {e}")))?;
                     let (ma, mb, mm, mw) = (std::mem::take(&mut s.ma), std::mem::take(&mut s.mb), std::mem::take(&mut s.mmono), std::mem::take(&mut s.mws));
+                    let (mg, mi) = (std::mem::take(&mut s.mgs), s.mitems);
                     drop(s);
                     drop(db);
                     db = Database::open(&dir).map_err(|e| Fail::Harness(format!("reopen: {e}")))?;
@@ -210,9 +246,68 @@ where
                     s.mb = mb;
                     s.mmono = mm;
                     s.mws = mw;
+                    s.mgs = mg;
+                    s.mitems = mi;
                 }
                 dest = EagerVec::import(&db, "dest", Version::ONE).map_err(|e| viol("result", format!("dest re-import: {e}")))?;
+                cnt = EagerVec::import(&db, "cnt", Version::ONE).map_err(|e| viol("result", format!("dest re-import: {e}")))?;
                 stats.bump("probe.dest_reimported");
+            }
+            "compute" if by_count => {
+                // result[i] = number of items of group i
+                let dlen = cnt.len();
+                let raw = us(op, "max_from");
+                let max_from = if first_changed == usize::MAX {
+                    match raw % 4 {
+                        0 => dlen,
+                        1 => dlen + raw % 7,
+                        2 => raw % (dlen + 1),
+                        _ => 0,
+                    }
+                } else {
+                    first_changed - (raw % (first_changed + 1)).min(if raw % 2 == 0 { 0 } else { first_changed })
+                };
+                if max_from < dlen {
+                    stats.bump("probe.compute_with_truncating_max_from");
+                }
+                let glen = s.mgs.len();
+                if glen.saturating_sub(max_from.min(dlen)) * 8 > knob {
+                    stats.bump("probe.compute_split_into_several_batches");
+                }
+                set_batch_knob(knob);
+                let r = catch(|| cnt.compute_count_from_indexes(max_from, &s.gs, &s.items, &exit));
+                set_batch_knob(1 << 30);
+                first_changed = usize::MAX;
+                nref += 1;
+                let mut fresh: EagerVec<BytesVec<usize, usize>> = EagerVec::import(&db, &format!("ref{nref}"), Version::ONE).map_err(|e| Fail::Harness(format!("import ref: {e}")))?;
+                let rr = catch(|| fresh.compute_count_from_indexes(0, &s.gs, &s.items, &exit));
+                let reference_ok = matches!(rr, Ok(Ok(())));
+                match r {
+                    Err(p) if reference_ok => return Err(viol("panic", format!("step {step}: compute (max_from {max_from}, dest len {dlen}) panicked: {p}"))),
+                    Ok(Err(e)) if reference_ok => return Err(viol("result", format!("step {step}: compute (max_from {max_from}) failed although a from-scratch run succeeds: {e}"))),
+                    Ok(Ok(())) if reference_ok => {}
+                    Ok(Ok(())) => return harness("reference run failed but the incremental one succeeded (count_from_indexes)"),
+                    _ => {
+                        stats.bump("probe.method_refuses_parameters_also_from_scratch");
+                        return Ok(());
+                    }
+                }
+                let want: Vec<usize> = fresh.collect();
+                let got: Vec<usize> = cnt.collect();
+                // independent model: group sizes from the model of the starts
+                let model: Vec<usize> = (0..glen).map(|i| if i + 1 < glen { s.mgs[i + 1] - s.mgs[i] } else { s.mitems - s.mgs[i] }).collect();
+                if want != model {
+                    return harness(format!("from-scratch count_from_indexes disagrees with the model ({} vs {} groups)", want.len(), model.len()));
+                }
+                if got.len() != glen {
+                    return Err(viol("length", format!("step {step}: result has {} elements, there are {glen} groups (max_from {max_from}, was {dlen})", got.len())));
+                }
+                if got != want {
+                    let at = got.iter().zip(&want).position(|(x, y)| x != y).unwrap_or(0);
+                    return Err(viol("differs-from-scratch", format!("step {step}: element {at} is {} but a from-scratch run gives {} (max_from {max_from}, previous len {dlen}, now {glen})", got[at], want[at])));
+                }
+                fresh.remove().map_err(|e| Fail::Harness(format!("remove ref: {e}")))?;
+                stats.bump("probe.compute_checked");
             }
             "compute" => {
                 // the caller passes a starting index no greater than the first changed source index
@@ -278,6 +373,7 @@ where
         }
     }
     drop(dest);
+    drop(cnt);
     drop(s);
     drop(db);
     HUB.reset();
